@@ -223,7 +223,7 @@ def _event_fields(ctx, p, qn):
 def s5_history(ctx):
     M = ctx.M
     ws = writers_of_attr(M, 'history')
-    ctx.floor('C01.S5', 'writers of Portfolio.history', len(ws), 5)
+    ctx.floor('C01.S5', 'writers of Portfolio.history', len(ws), 1)
     for w in ws:
         how = w.how
         ok = w.fn.cls is not None and w.fn.cls.name == 'Portfolio' and (how.startswith('mut:append') or (how.startswith('assign:field') and w.fn.name == '__init__'))
@@ -317,12 +317,36 @@ def s6_aggregates(ctx):
     for qn, getter, prop in (('SimulatedBroker.get_account_total_equity', 'SimulatedBroker.get_portfolio_total_equity', 'total_equity'),
                              ('SimulatedBroker.get_account_total_market_value', 'SimulatedBroker.get_portfolio_total_market_value', 'total_market_value')):
         fn = ctx.fn(qn)
-        ps = summarise(ctx, qn, policy=lambda a, b, d: default_policy(a, b, d) and not b.name.startswith('get_'))
+        ps = summarise(ctx, qn, policy=lambda a, b, d: default_policy(a, b, d) and not b.name.startswith('get_') and not b.is_property)
         ok = len(ps) == 1 and ps[0].outcome == 'return'
         if not ctx.require(ok if ok else None, 'C01.S6', '%s has a single normal path' % qn, fn.site(), [p.describe() for p in ps][:4]):
             continue
         p = ps[0]
         loops = [e for e in p.events if e.kind == 'loop']
+        if not loops and p.value is not None:
+            # comprehension form: {pid: figure(p) for p in portfolios} with 'master' = sum(figure(p) for p in portfolios)
+            cur, master_c = p.value, None
+            while cur[0] == 'call' and cur[1] == ('ext', 'SETITEM'):
+                if cur[2][1] == ('str', 'master'):
+                    master_c = cur[2][2]
+                cur = cur[2][0]
+            if master_c is not None and master_c[0] == 'call' and master_c[1] == ('ext', 'SUM') and len(master_c[2]) == 1 and master_c[2][0][0] == 'comp' \
+                    and len(master_c[2][0][3]) == 1:
+                comp = master_c[2][0]
+                shape, it, ifs = comp[3][0]
+                ctx.require(fmt(it) in ('self.portfolios.values()', 'self.portfolios.items()', 'self.portfolios') and not ifs, 'C01.S6',
+                            '%s sums over all portfolios' % qn, fn.site(), 'iterates %s%s' % (fmt(it), ' with a filter' if ifs else ''), key='C01.S6|%s|iter' % qn)
+                pv = shape[-1]
+                body = comp[2]
+                good = (body[0] == 'attr' and body[1] == pv and body[2] == prop) or (body[0] == 'call' and body[1] == ('fn', getter)) or \
+                    (body[0] == 'call' and body[1] == ('fn', 'Portfolio.' + prop))
+                ctx.require(good, 'C01.S6', '%s sums the per-portfolio %s' % (qn, prop), fn.site(), fmt(body)[:120], key='C01.S6|%s|summand' % qn)
+                if cur[0] == 'comp' and cur[1] == 'dict' and cur[2][0] == 'tuple':
+                    same = T.replace(cur[2][1][1], lambda z: pv if z == cur[3][0][0][-1] else None) == body
+                    ctx.require(same, 'C01.S6', "%s: 'master' sums exactly the figures reported per portfolio" % qn, fn.site(), '%s vs %s' % (fmt(cur[2][1][1])[:60], fmt(body)[:60]),
+                                key='C01.S6|%s|consistent' % qn)
+                ctx.sample({'rule': 'C01.S6', 'function': qn, 'master': fmt(master_c)[:160]})
+                continue
         if not ctx.require(len(loops) == 1 if len(loops) == 1 else None, 'C01.S6', '%s iterates the portfolios once' % qn, fn.site(), '%d loops' % len(loops)):
             continue
         lp = loops[0]
